@@ -1286,8 +1286,8 @@ class Interp:
         kwargs = {p_: bound[p_] for p_ in kws}
         if func.kwarg and func.kwarg in bound:
             kwargs["**"] = bound[func.kwarg]         # the entry point's own **kwargs: an unknown mapping, handed on as such
-        if func.vararg and func.vararg in bound:
-            raise Inconclusive("an entry point with *args behind a decorator is not modelled", n or func.node)
+        if func.vararg and func.vararg in bound and any(isinstance(x, ast.Name) and x.id == func.vararg for x in ast.walk(func.node)):
+            raise Inconclusive("an entry point that uses its *args behind a decorator is not modelled", n or func.node)
         sub = Ctx(func, func.module, func.cls, ctx.stack + (func.qname + "@entry",), parent=ctx)
         sub.self_obj = selfobj
         self._entry_bind = func.qname
